@@ -177,6 +177,11 @@ def statement(kind, k):
         return ['z%d = """l1' % k, 'l2""" + str(t(%d))' % k], '', None, False, None
     if kind == 'raise':
         return ['raise ValueError("m%%d" %% t(%d))' % k], '', None, False, ('ValueError', 'm%d' % k)
+    if kind == 'raisefinally':
+        # the raising line sits INSIDE a try/finally: the frame goes on executing the cleanup lines while the exception unwinds
+        return ['try:', '    v%d = t(%d) // 0' % (k, k), 'finally:', '    w%d = 2' % k, '    u%d = 3' % k], '', None, False, ('ZeroDivisionError', 'integer division or modulo by zero')
+    if kind == 'raisereraise':
+        return ['try:', '    v%d = t(%d) // 0' % (k, k), 'except ZeroDivisionError:', '    w%d = 2' % k, '    raise'], '', None, False, ('ZeroDivisionError', 'integer division or modulo by zero')
     if kind == 'printraise':
         return ['print("r%d"); raise ValueError("m%%d" %% t(%d))' % (k, k)], 'r%d\n' % k, None, False, ('ValueError', 'm%d' % k)
     if kind == 'callraise':
